@@ -427,7 +427,8 @@ func main() {
 		if o.Kind == 1 && o.MD5 != patternMD5(uc.Size) {
 			bad("descriptor-md5-wrong", "MD5 %s differs from the source's", o.MD5)
 		}
-		if uc.Auto && uc.Size <= int64(partsLimit)*maxPartSize && n > partsLimit {
+		// (for a stream of unknown size no sizing is possible: that case is the known finding flagged above)
+		if uc.Auto && uc.Declared != -1 && uc.Size <= int64(partsLimit)*maxPartSize && n > partsLimit {
 			bad("auto-size-exceeds-parts-limit", "%d parts of %d bytes", n, ps)
 		}
 	}
@@ -467,7 +468,7 @@ func main() {
 			}
 		}
 	}
-	for i := 0; i < c.N(300, 20000); i++ {
+	for i := 0; i < c.N(300, 6000); i++ {
 		ps := partSizes[c.Rng.Intn(len(partSizes))]
 		if c.Rng.Chance(1, 5) {
 			ps = c.Rng.Intn(600) * kib
@@ -567,7 +568,7 @@ func main() {
 		one("many-parts", uc)
 	}
 	// non-retryable error somewhere (the model must predict the failure; no oracle)
-	for i := 0; i < c.N(12, 200); i++ {
+	for i := 0; i < c.N(12, 100); i++ {
 		ps := []int{kib, 4 * kib}[c.Rng.Intn(2)]
 		sz := int64(c.Rng.Range(1, 12*ps))
 		decl := sz
@@ -595,7 +596,7 @@ func main() {
 		}
 	}
 	// random
-	for i := 0; i < c.N(60, 3000); i++ {
+	for i := 0; i < c.N(60, 1000); i++ {
 		ps := []int{kib, 2 * kib, 4 * kib, 32 * kib, 128 * kib}[c.Rng.Intn(5)]
 		k := int64(c.Rng.Range(0, 40))
 		if ps >= 32*kib {
